@@ -86,6 +86,7 @@ M = [
     ('df-diff-loc-evicts-row-at-bound', 'streamz/dataframe/aggregations.py', "            o = dfs[0].loc[:mn - pd.Timedelta('1ns')]", "            o = dfs[0].loc[:mn]", ['C07']),
     ('df-groupby-mean-residue-over-zero', 'streamz/dataframe/aggregations.py', "        return (totals / counts).where(counts > 0)", "        return totals / counts", ['C07']),
     ('window-reset-index-drops-state', 'streamz/dataframe/core.py', "        return type(self)(self.root.reset_index(), n=self.n, value=self.value,\n                          with_state=self.with_state, start=self.start)", "        return type(self)(self.root.reset_index(), n=self.n, value=self.value)", ['C12']),
+    ('collect-flush-releases-live-cache', 'streamz/core.py', "        self.cache.clear()\n        self.metadata_cache.clear()\n        ret = self._emit(out, metadata)\n        self._release_refs(metadata)", "        self.cache.clear()\n        ret = self._emit(out, metadata)\n        self._release_refs(self.metadata_cache)\n        self.metadata_cache.clear()", ['C04', 'C05']),
 ]
 
 
